@@ -441,14 +441,21 @@ func sortColumns(ssl []sql.SortSpecification, qfields storage.Fields, rows []*st
 				continue
 			}
 
+			// a NULL sorts before every value; lhs and rhs differ here, so at
+			// most one of them is NULL
 			sortAsc := false
-			switch lhs.(type) {
+			switch lhs := lhs.(type) {
+			case nil:
+				sortAsc = true
 			case int64:
-				sortAsc = lhs.(int64) < rhs.(int64)
+				rhs, ok := rhs.(int64)
+				sortAsc = ok && lhs < rhs
 			case string:
-				sortAsc = strings.Compare(lhs.(string), rhs.(string)) < 0
+				rhs, ok := rhs.(string)
+				sortAsc = ok && strings.Compare(lhs, rhs) < 0
 			case bool:
-				sortAsc = !lhs.(bool) && rhs.(bool)
+				rhs, ok := rhs.(bool)
+				sortAsc = ok && !lhs && rhs
 			default:
 				panic(fmt.Sprintf("no comparison available for type %T", lhs))
 			}
